@@ -348,3 +348,107 @@ func ruleR11d(c *Ctx) {
 		return true
 	})
 }
+
+// R11f: the node rendered for a placeholder of a translated message is looked up in the message being
+// rendered, every time: the value walked for a PlaceholderPart is the direct result of
+// (*ast.MsgNode).Placeholder on the function's own message parameter with the part's name. A node taken
+// from a table kept across messages (keyed by id, by name, ...) belongs to whichever message filled it.
+func ruleR11f(c *Ctx) {
+	n := 0
+	for _, rel := range []string{"soyhtml", "soyjs"} {
+		p := c.pkg(rel)
+		if p == nil {
+			continue
+		}
+		info := p.TypesInfo
+		for _, fd := range c.allFuncDecls(rel) {
+			msgParams := map[types.Object]bool{}
+			for _, fl := range fd.Type.Params.List {
+				for _, nm := range fl.Names {
+					if o := info.Defs[nm]; o != nil {
+						if _, tn, ok := relPkgOfType(o.Type()); ok && tn == "MsgNode" {
+							msgParams[o] = true
+						}
+					}
+				}
+			}
+			ast.Inspect(fd.Body, func(x ast.Node) bool {
+				cc, ok := x.(*ast.CaseClause)
+				if !ok || len(cc.List) != 1 {
+					return true
+				}
+				tv, ok := info.Types[cc.List[0]]
+				if !ok || !tv.IsType() {
+					return true
+				}
+				if _, tn, ok := relPkgOfType(tv.Type); !ok || tn != "PlaceholderPart" {
+					return true
+				}
+				n++
+				key := c.declKey(rel, fd) + " placeholder-node"
+				// definitions of *ast.MsgPlaceholderNode-typed variables in the arm
+				defs, good := 0, 0
+				var why string
+				for _, st := range cc.Body {
+					ast.Inspect(st, func(y ast.Node) bool {
+						var lhs, rhs []ast.Expr
+						switch s := y.(type) {
+						case *ast.AssignStmt:
+							lhs, rhs = s.Lhs, s.Rhs
+						case *ast.ValueSpec:
+							for _, nm := range s.Names {
+								lhs = append(lhs, nm)
+							}
+							rhs = s.Values
+						default:
+							return true
+						}
+						if len(lhs) != len(rhs) {
+							return true
+						}
+						for i, l := range lhs {
+							id, ok := l.(*ast.Ident)
+							if !ok {
+								continue
+							}
+							o := info.Defs[id]
+							if o == nil {
+								o = info.Uses[id]
+							}
+							if o == nil {
+								continue
+							}
+							if _, tn, ok := relPkgOfType(o.Type()); !ok || tn != "MsgPlaceholderNode" {
+								continue
+							}
+							defs++
+							call, ok := ast.Unparen(rhs[i]).(*ast.CallExpr)
+							if !ok {
+								why = exprKey(rhs[i])
+								continue
+							}
+							cal := calleeFunc(call, info)
+							se, isSel := call.Fun.(*ast.SelectorExpr)
+							if cal != nil && cal.Name() == "Placeholder" && isSel {
+								if rid, ok := ast.Unparen(se.X).(*ast.Ident); ok && msgParams[info.Uses[rid]] {
+									if rt := cal.Type().(*types.Signature).Recv(); rt != nil {
+										if _, tn, ok := relPkgOfType(rt.Type()); ok && tn == "MsgNode" {
+											good++
+											continue
+										}
+									}
+								}
+							}
+							why = exprKey(rhs[i])
+						}
+						return true
+					})
+				}
+				c.check(defs > 0 && good == defs, "R11f", key, cc.Pos(), "the placeholder's node is looked up in the message being rendered",
+					"the node rendered for a placeholder comes from "+why+", not directly from the Placeholder look-up on the message being rendered: two messages with the same text (same id, same placeholder names) but different expressions render each other's values")
+				return true
+			})
+		}
+	}
+	c.floor("R11f", "PlaceholderPart arms in the two backends", 2, n)
+}
